@@ -45,8 +45,13 @@ mod verif_c02_message {
             G_CRC
         }
     }
-    /// C04 rule relative to a given CRC value of the data bits.
+    /// C04 rule relative to the CRC value the stand-in handed out.  If the code under
+    /// verification never consulted the CRC routine (it may compute the parity some other way),
+    /// the relative form does not apply and the rule is checked against the spec CRC itself.
     fn parity_rel(d: &[u32], c: u32) -> bool {
+        if !unsafe { G_CRC_INIT } {
+            return vs::parity_ok(d);
+        }
         let syn = c ^ vs::ap_field(d);
         match vs::df_of(d) {
             17 | 18 => syn == 0,
@@ -64,7 +69,7 @@ mod verif_c02_message {
         kani::cover!(true, "reach_end");
     }
 
-    //@ob id=C02.get_message.agree.14 flags=noassert props=C02,C01 tier=quick kind=harness fns=utils.rs:get_message draw=frame14
+    //@ob id=C02.get_message.agree.14 flags=noassert props=C02,C01 tier=quick kind=harness fns=utils.rs:get_message draw=frame14 replay=line
     //@region all 14-digit vectors: accepted only if DF<=15 (a 56-bit frame announcing a 112-bit format is not a frame); accepted vector is returned unchanged
     #[kani::proof]
     #[kani::stub(clean_squitter, clean_stub_14)]
@@ -81,7 +86,7 @@ mod verif_c02_message {
         kani::cover!(true, "reach_end");
     }
 
-    //@ob id=C02.get_message.agree.28 flags=noassert props=C02,C01 tier=quick kind=harness fns=utils.rs:get_message draw=frame28
+    //@ob id=C02.get_message.agree.28 flags=noassert props=C02,C01 tier=quick kind=harness fns=utils.rs:get_message draw=frame28 replay=line
     //@region all 28-digit vectors: accepted only if DF>=16; accepted vector is returned unchanged
     #[kani::proof]
     #[kani::stub(clean_squitter, clean_stub_28)]
@@ -98,50 +103,53 @@ mod verif_c02_message {
         kani::cover!(true, "reach_end");
     }
 
-    //@ob id=C04.get_message.parity.14 flags=noassert props=C04,C02 tier=quick kind=harness fns=utils.rs:get_message,utils/crc.rs:crc56 draw=frame14
+    //@ob id=C04.get_message.parity.14 flags=noassert props=C04,C02 tier=quick kind=harness fns=utils.rs:get_message,utils/crc.rs:crc56 draw=frame14 replay=line
     //@region all 14-digit vectors: a DF11 frame is accepted only if (CRC-24 of its data bits xor its last 24 bits) has the upper 17 bits zero - for all 2^56 bit patterns, hence every error pattern; CRC routine replaced by its contract (L1.crc56, L1.get_crc)
     #[kani::proof]
     #[kani::stub(clean_squitter, clean_stub_14)]
     #[kani::unwind(90)]
     #[kani::stub(crate::decoder::utils::crc::get_crc, crc_stub)]
+    #[kani::solver(kissat)]
     fn c04_get_message_parity_14() {
         let r = get_message("x");
         let d = unsafe { GHOST_D14 };
         if r.is_some() {
             assert!(parity_rel(&d, unsafe { G_CRC }), "accepted DF11 frame: (CRC-24 of the data bits xor PI) & 0xFFFF80 == 0");
             if vs::df_of(&d) == 11 {
-                assert!(unsafe { G_CRC_INIT && G_CRC_DF == 11 && G_CRC_LEN == 14 }, "CRC taken over this frame as DF11");
+                assert!(unsafe { !G_CRC_INIT || (G_CRC_DF == 11 && G_CRC_LEN == 14) }, "CRC routine, if consulted, is asked about this frame as DF11");
             }
         }
         kani::cover!(r.is_some() && vs::df_of(&d) == 11, "accepted DF11");
         kani::cover!(true, "reach_end");
     }
 
-    //@ob id=C04.get_message.parity.28 flags=noassert props=C04,C02 tier=quick kind=harness fns=utils.rs:get_message,utils/crc.rs:crc112 draw=frame28
+    //@ob id=C04.get_message.parity.28 flags=noassert props=C04,C02 tier=quick kind=harness fns=utils.rs:get_message,utils/crc.rs:crc112 draw=frame28 replay=line
     //@region all 28-digit vectors: a DF17/DF18 frame is accepted only if the CRC-24 of its 88 data bits equals its PI field - for all 2^112 bit patterns; CRC routine replaced by its contract (L1.crc112, L1.get_crc)
     #[kani::proof]
     #[kani::stub(clean_squitter, clean_stub_28)]
     #[kani::unwind(90)]
     #[kani::stub(crate::decoder::utils::crc::get_crc, crc_stub)]
+    #[kani::solver(kissat)]
     fn c04_get_message_parity_28() {
         let r = get_message("x");
         let d = unsafe { GHOST_D28 };
         if r.is_some() {
             assert!(parity_rel(&d, unsafe { G_CRC }), "accepted DF17/18 frame: CRC-24 of the data bits == PI field");
             if vs::df_of(&d) == 17 || vs::df_of(&d) == 18 {
-                assert!(unsafe { G_CRC_INIT && G_CRC_DF == vs::df_of(&d) && G_CRC_LEN == 28 }, "CRC taken over this frame with its DF");
+                assert!(unsafe { !G_CRC_INIT || (G_CRC_DF == vs::df_of(&d) && G_CRC_LEN == 28) }, "CRC routine, if consulted, is asked about this frame with its DF");
             }
         }
         kani::cover!(r.is_some() && vs::df_of(&d) == 17, "accepted DF17");
         kani::cover!(true, "reach_end");
     }
 
-    //@ob id=C02.get_message.complete.14 flags=noassert props=C02 tier=quick kind=harness fns=utils.rs:get_message draw=frame14
+    //@ob id=C02.get_message.complete.14 flags=noassert props=C02 tier=quick kind=harness fns=utils.rs:get_message draw=frame14 replay=line
     //@region converse for 14 digits: DF<=15 and (DF11 => parity ok) implies the line IS taken as a frame
     #[kani::proof]
     #[kani::stub(clean_squitter, clean_stub_14)]
     #[kani::unwind(90)]
     #[kani::stub(crate::decoder::utils::crc::get_crc, crc_stub)]
+    #[kani::solver(kissat)]
     fn c02_get_message_complete_14() {
         let r = get_message("x");
         let d = unsafe { GHOST_D14 };
@@ -151,12 +159,13 @@ mod verif_c02_message {
         kani::cover!(true, "reach_end");
     }
 
-    //@ob id=C02.get_message.complete.28 flags=noassert props=C02 tier=quick kind=harness fns=utils.rs:get_message draw=frame28
+    //@ob id=C02.get_message.complete.28 flags=noassert props=C02 tier=quick kind=harness fns=utils.rs:get_message draw=frame28 replay=line
     //@region converse for 28 digits: DF>=16 and (DF17/18 => parity ok) implies the line IS taken as a frame
     #[kani::proof]
     #[kani::stub(clean_squitter, clean_stub_28)]
     #[kani::unwind(90)]
     #[kani::stub(crate::decoder::utils::crc::get_crc, crc_stub)]
+    #[kani::solver(kissat)]
     fn c02_get_message_complete_28() {
         let r = get_message("x");
         let d = unsafe { GHOST_D28 };
@@ -166,7 +175,7 @@ mod verif_c02_message {
         kani::cover!(true, "reach_end");
     }
 
-    //@ob id=C04.get_message.parity.14.e2e flags=noassert props=C04,C02 tier=thorough kind=harness fns=utils.rs:get_message,utils/crc.rs:crc56 draw=frame14
+    //@ob id=C04.get_message.parity.14.e2e flags=noassert props=C04,C02 tier=thorough kind=harness fns=utils.rs:get_message,utils/crc.rs:crc56 draw=frame14 replay=line
     //@region end-to-end re-check of C04.get_message.parity.14 without the CRC stand-in (spec LFSR vs the real routine inside get_message)
     #[kani::proof]
     #[kani::stub(clean_squitter, clean_stub_14)]
@@ -185,7 +194,7 @@ mod verif_c02_message {
         kani::cover!(true, "reach_end");
     }
 
-    //@ob id=C04.get_message.parity.28.e2e flags=noassert mem=high props=C04,C02 tier=thorough kind=harness fns=utils.rs:get_message,utils/crc.rs:crc112 draw=frame28
+    //@ob id=C04.get_message.parity.28.e2e flags=noassert mem=high props=C04,C02 tier=thorough kind=harness fns=utils.rs:get_message,utils/crc.rs:crc112 draw=frame28 replay=line
     //@region end-to-end re-check of C04.get_message.parity.28 without the CRC stand-in
     #[kani::proof]
     #[kani::stub(clean_squitter, clean_stub_28)]
